@@ -15,7 +15,7 @@ def instances():
     # and a user-defined layout policy (ulog)
     for pat in ((None,), (None, None), (3, 4), (None, 3, None)):
         for kind, sp in (('left', None), ('right', None), ('stride', None), ('lpad', 'D')):
-            for acc in ('px', 'eh', 'sh', 'sf'): out.append((kind, sp, 'i32', pat, acc))
+            for acc in ('px', 'eh', 'sh', 'sf', 'th'): out.append((kind, sp, 'i32', pat, acc))
     for t in ('i32', 'u8'):
         for pat in ((), (None,), (None, None), (3, None), (2, 3, 2)):
             for acc in ('def', 'st', 'px'): out.append(('ulog', None, t, pat, acc))
@@ -39,8 +39,8 @@ def sources(ntu=32, insts=None):
         kind, sp, t, pat, acc = i
         E = cxx_extents(t, pat); spv = 'md::dynamic_extent' if sp in (None, 'D') else str(sp)
         lay = {'left': 'md::layout_left', 'right': 'md::layout_right', 'stride': 'md::layout_stride', 'lpad': 'mdx::layout_left_padded<%s>' % spv, 'rpad': 'mdx::layout_right_padded<%s>' % spv, 'ulog': 'LogLayout', 'urev': 'RevLayout', 'ubc': 'BcLayout'}[kind]
-        A = {'def': 'md::default_accessor<int>', 'st': 'StAcc<int>', 'px': 'PxAcc<int>', 'eh': 'EhAcc<int>', 'sh': 'ShiftAcc<int>', 'sf': 'SelfAcc<int>'}[acc]
-        A2 = {'def': 'md::default_accessor<const int>', 'st': 'StAcc<const int>', 'px': 'PxAcc<const int>', 'eh': 'EhAcc<const int>', 'sh': 'ShiftAcc<const int>', 'sf': 'SelfAcc<const int>'}[acc]
+        A = {'def': 'md::default_accessor<int>', 'st': 'StAcc<int>', 'px': 'PxAcc<int>', 'eh': 'EhAcc<int>', 'sh': 'ShiftAcc<int>', 'sf': 'SelfAcc<int>', 'th': 'ThrowAcc<int>'}[acc]
+        A2 = {'def': 'md::default_accessor<const int>', 'st': 'StAcc<const int>', 'px': 'PxAcc<const int>', 'eh': 'EhAcc<const int>', 'sh': 'ShiftAcc<const int>', 'sf': 'SelfAcc<const int>', 'th': 'ThrowAcc<const int>'}[acc]
         E2 = cxx_extents(t2(t), [None] * len(pat))
         E3 = cxx_extents(t, twin(pat))
         tus[n % ntu].append('  regView<%s, %s, %s, %s, md::mdspan<const int, %s, %s, %s>, md::mdspan<const int, %s, %s, %s>>("%s");' % (KINDS[kind], E, spv, A, E2, lay, A2, E3, lay, A2, key(i)))
